@@ -29,18 +29,38 @@ Definition gen_ok : bool :=
   && consumer_keeps_early_parts && txid_under_lock
   && (0 <? Z.of_nat recent_cap) && (0 <? Z.of_nat sco_queue_cap).
 
-(* ---- provider correspondence: (first id - 1, first MdibVersion, events) ->
-        (responses, report parts, MdibVersion after every event, boolean twin of the theorems) *)
-Definition run_prov (c : Z * Z * list pevent) : list (list Z) * list (list Z) * list Z :=
-  let '(n, mv, es) := c in
-  let '(s, o) := prun_gen (pinit n mv) es in
-  (enc_resps o, enc_parts o, pversions_gen (pinit n mv) es).
-Definition prov_eqb (a b : list (list Z) * list (list Z) * list Z) : bool :=
-  zll_eqb (fst (fst a)) (fst (fst b)) && zll_eqb (snd (fst a)) (snd (fst b)) && zl_eqb (snd a) (snd b).
-Definition check_prov (c : Z * Z * list pevent) : bool :=
-  let '(n, mv, es) := c in
-  let '(s, o) := prun_gen (pinit n mv) es in
+(* ---- provider correspondence.  The harness steps the real worker with two operations: a request, or
+        "let the handler that waits at the gate finish"; the real worker takes the next queued operation as
+        soon as it is free, hence the EvTake after each.
+        (last id, MdibVersion, ops) -> (responses, report parts, MdibVersion after every op,
+                                       number of report parts sent during every op) *)
+Inductive hop := HReq (r : req) | HFinish.
+Definition hop_events (h : hop) : list pevent :=
+  match h with HReq r => [EvReq r; EvTake] | HFinish => [EvFinish; EvTake] end.
+Fixpoint hrun (s : pstate) (hs : list hop) : list (list pout * Z) :=
+  match hs with
+  | [] => []
+  | h :: r => let '(s1, o1) := prun_gen s (hop_events h) in (o1, p_mv s1) :: hrun s1 r
+  end.
+Definition prov_obs : Type := list (list Z) * list (list Z) * list Z * list Z.
+Definition run_prov (c : Z * Z * list hop) : prov_obs :=
+  let '(n, mv, hs) := c in
+  let l := hrun (pinit n mv) hs in
+  let o := flat_map fst l in
+  (enc_resps o, enc_parts o, map snd l, map (fun x => Z.of_nat (length (enc_parts (fst x)))) l).
+Definition prov_eqb (a b : prov_obs) : bool :=
+  let '(a1, a2, a3, a4) := a in let '(b1, b2, b3, b4) := b in
+  zll_eqb a1 b1 && zll_eqb a2 b2 && zl_eqb a3 b3 && zl_eqb a4 b4.
+(* boolean twin of C09_legal_sequence on the same inputs *)
+Definition check_prov (c : Z * Z * list hop) : bool :=
+  let '(n, mv, hs) := c in
+  let '(s, o) := prun_gen (pinit n mv) (flat_map hop_events hs) in
   forallb (fun x => check_tx o (quiescent s) (fst x)) (p_hist s).
+(* concurrent stream: responses and report parts only (the requests in the order of their ids) *)
+Definition run_prov_lite (c : Z * Z * list hop) : list (list Z) * list (list Z) :=
+  let '(r, p, _, _) := run_prov c in (r, p).
+Definition lite_eqb (a b : list (list Z) * list (list Z)) : bool :=
+  zll_eqb (fst a) (fst b) && zll_eqb (snd a) (snd b).
 
 (* ---- consumer correspondence: events -> (completions, pending, recent) *)
 Definition run_cons (es : list cevent) : list (list Z) * list (list Z) * list Z :=
